@@ -244,7 +244,7 @@ CLAIMS = {
          "below the prefix power, which is why lowering has to re-associate); parse_print_cst (for EVERY tree the model parser turns the "
          "minimal-parentheses printing into the CST described by the tree's spine); parse_print (for every well-formed tree over "
          "identifiers and integer literals with all 12 binary operators, both prefix operators, calls of any arity, field access and tuple "
-         "projection: parse (printMin t) = t; well-formed only excludes an integer literal as receiver of a postfix operation, witnessed by "
+         "projection: parse (printMin t) = t; well-formed only excludes calling an integer literal directly, witnessed by "
          "literal_receiver_rejected); left_assoc; string literals: escape_accepted / decode_escape (every string has a spelling the lexer "
          "regex accepts and lowering decodes it back), decode_plain, escape_table, multiline_fidelity; escapes_table_spec, surrogate_combine "
          "(the surrogate-pair arithmetic, translated from the Rust expression on every run, equals 0x10000+(hi-0xD800)*0x400+(lo-0xDC00) "
